@@ -2,9 +2,9 @@
 import opscheck
 import opsdrive
 
-POS = ["C11_Linear", "C11_Arithmetic", "C11_Harmonic", "C11_Upwind", "C11_Geometric", "C11_Between",
+POS = ["C11_Linear", "C11_Arithmetic", "C11_Harmonic", "C11_Upwind", "C11_UpwindRepeat", "C11_Geometric", "C11_Between",
        "C11_Ordering", "C11_Constants", "C11_LinearExact"]
-ARB = ["C11_Linear", "C11_Arithmetic", "C11_Upwind", "C11_Constants", "C11_LinearExact"]
+ARB = ["C11_Linear", "C11_Arithmetic", "C11_Upwind", "C11_UpwindRepeat", "C11_Constants", "C11_LinearExact"]
 ZER = ["C11_Linear", "C11_Arithmetic", "C11_Harmonic", "C11_Upwind"]
 
 
